@@ -38,6 +38,7 @@ def catalogue():
                     cat.append(("resp", tk, src, tp, md))
     cat += [("rst", "A"), ("rst", "B"), ("eack", "A"), ("eack", "B"), ("dup",), ("err", 0), ("err", 1), ("timer",), ("shutdown",)]
     cat += [("shutdown-race", k) for k in range(7)]
+    cat += [("cancelled-early", 0), ("cancelled-early", 1)]
     return cat
 
 
@@ -158,6 +159,24 @@ def mk_events(first, depth, combos3=True):
                         else:
                             out = inject(last[1], last[2])
                             assert [o for (o, a) in out if o.mtype in (ACK, RST)] == []
+                    elif kind == "cancelled-early":
+                        # a further request whose result the application cancels before the event loop got to sending it: its
+                        # token is retired at once, a later response on it is an unknown response
+                        md = Message(code=GET, uri_path=["D"], _mtype=CON)
+                        md.remote = S.remote(stack.R2)
+                        rqd = S.ctx.request(md, handle_blockwise=False)
+                        rqd.response.cancel()
+                        loop.run_ready()
+                        if md.token:
+                            tp = ev[1]
+                            data = Message(code=CONTENT, payload=b"late", _mtype=pick([CON, NON], tp), _mid=4711, _token=md.token).encode()
+                            out = inject(data, stack.R2)
+                            if tp == 0:
+                                assert [(o.mtype, o.mid) for (o, a) in out] == [(RST, 4711)], "response on a retired token must be answered with Reset"
+                            else:
+                                assert out == []
+                        S.icmp_error(stack.R2)          # stop the abandoned exchange's retransmissions
+                        last = None
                     elif kind == "err":
                         ep = pick(EPS, ev[1])
                         S.icmp_error(ep)
